@@ -254,6 +254,8 @@ def _raw_power(chk, src):
             if d in ('np.real', 'np.imag') and len(e.args) == 1:
                 v = ev(e.args[0], env)
                 return (v[0] if d == 'np.real' else v[1], Z)
+            if isinstance(e.func, ast.Attribute) and e.func.attr == 'copy' and not e.args and not e.keywords:
+                return ev(e.func.value, env)
             raise NotUnderstood(unparse(e)[:40])
         if isinstance(e, ast.BinOp):
             if isinstance(e.op, ast.Pow) and isinstance(e.right, ast.Constant) and e.right.value == 2:
@@ -276,13 +278,43 @@ def _raw_power(chk, src):
             return (-v[0], -v[1])
         raise NotUnderstood(unparse(e)[:40])
 
-    def run(second_given, a, b):
+    def run(second_given, a, b, same=False):
+        # values by name, and which names denote the same array OBJECT (an in-place update is seen through every name of the object;
+        # same=True: the caller passed one object for both fields)
         env = {params[0]: a, params[1]: b if second_given else None}
+        obj = {params[0]: 0, params[1]: 0 if same else 1}
+        nobj = [2]
+
+        def update(name, val):
+            if name not in obj:
+                raise NotUnderstood(f'in-place update of {name}')
+            for n_ in [n_ for n_, o_ in obj.items() if o_ == obj[name]]:
+                env[n_] = val
 
         def block(stmts):
             for st in stmts:
-                if isinstance(st, ast.Expr):
+                if isinstance(st, ast.Expr) and isinstance(st.value, ast.Constant):
                     continue
+                if isinstance(st, ast.Expr) and isinstance(st.value, ast.Call) and dotted(st.value.func) in ('np.conj', 'np.conjugate'):
+                    c_ = st.value
+                    outs = [k_.value for k_ in c_.keywords if k_.arg == 'out'] + list(c_.args[1:2])
+                    if len(outs) == 1 and isinstance(outs[0], ast.Name) and len(c_.args) >= 1:
+                        v = ev(c_.args[0], env)
+                        update(outs[0].id, (v[0], -v[1]))
+                        continue
+                    raise NotUnderstood(unparse(st)[:40])
+                if isinstance(st, ast.AugAssign) and isinstance(st.target, ast.Name) and isinstance(st.op, (ast.Mult, ast.Add, ast.Sub)):
+                    a_, b_ = ev(st.target, env), ev(st.value, env)
+                    if isinstance(st.op, ast.Mult):
+                        v = (a_[0] * b_[0] - a_[1] * b_[1], a_[0] * b_[1] + a_[1] * b_[0])
+                    elif isinstance(st.op, ast.Add):
+                        v = (a_[0] + b_[0], a_[1] + b_[1])
+                    else:
+                        v = (a_[0] - b_[0], a_[1] - b_[1])
+                    update(st.target.id, v)
+                    continue
+                if isinstance(st, ast.Expr):
+                    raise NotUnderstood(unparse(st)[:40])
                 if isinstance(st, ast.If):
                     t = unparse(st.test)
                     if t == f'{params[1]} is not None':
@@ -296,16 +328,50 @@ def _raw_power(chk, src):
                     continue
                 if isinstance(st, ast.Assign) and len(st.targets) == 1 and isinstance(st.targets[0], ast.Name):
                     env[st.targets[0].id] = ev(st.value, env)
+                    if isinstance(st.value, ast.Name) and st.value.id in obj:
+                        obj[st.targets[0].id] = obj[st.value.id]
+                    else:
+                        obj[st.targets[0].id] = nobj[0]
+                        nobj[0] += 1
                     continue
                 if isinstance(st, ast.Return):
                     return ev(st.value, env)
                 raise NotUnderstood(unparse(st)[:40])
             return None
         return block(fn.body)
+    # can a caller hand the SAME array object for both fields?  (a local bound to the other argument's name: `field2_fft = field_fft`)
+    may_alias = []
+    mfuncs = {f_.name: f_ for f_ in src.tree(PS).body if isinstance(f_, ast.FunctionDef)}
+
+    def _arg(c_, callee, pname):
+        ps_ = [a_.arg for a_ in callee.args.args]
+        k = ps_.index(pname)
+        if k < len(c_.args):
+            return c_.args[k]
+        return next((k_.value for k_ in c_.keywords if k_.arg == pname), None)
+
+    def _alias_sites(fname, p0, p1, depth=0):
+        callee = mfuncs.get(fname)
+        if callee is None or depth > 3:
+            return
+        for f_ in mfuncs.values():
+            for c_ in walk_no_nested(f_):
+                if isinstance(c_, ast.Call) and dotted(c_.func) == fname:
+                    a0, a1 = _arg(c_, callee, p0), _arg(c_, callee, p1)
+                    if not (isinstance(a0, ast.Name) and isinstance(a1, ast.Name)):
+                        continue
+                    if a0.id == a1.id or any(isinstance(n_, ast.Assign) and len(n_.targets) == 1 and isinstance(n_.targets[0], ast.Name) and isinstance(n_.value, ast.Name)
+                                             and {n_.targets[0].id, n_.value.id} == {a0.id, a1.id} for n_ in walk_no_nested(f_)):
+                        may_alias.append(c_)
+                    fps = [a_.arg for a_ in f_.args.args + f_.args.kwonlyargs]
+                    if a0.id in fps and a1.id in fps and f_.name != fname:
+                        _alias_sites(f_.name, a0.id, a1.id, depth + 1)
+    _alias_sites('get_raw_power', params[0], params[1])
     try:
         auto = run(False, A, None)
         cross_same = run(True, A, A)
         cross = run(True, A, B)
+        cross_obj = run(True, A, A, same=True) if may_alias else None
     except NotUnderstood as e:
         chk.unknown('C13-R5', PS, 'get_raw_power', 'estimator evaluated over complex algebra', f'not understood: {e}', node=fn)
         return
@@ -313,6 +379,12 @@ def _raw_power(chk, src):
     ok1 = auto is not None and cross_same is not None and auto[0] == cross_same[0] and auto[1] == Z and cross_same[1] == Z
     chk.check(ok1, 'C13-R5', PS, 'get_raw_power', 'cross power of a field with itself == auto power (real)', f'{auto[0] if auto else None}',
               f'auto branch gives {auto}, cross branch with field2 = field gives {cross_same}: cross != auto for the same particles', node=fn)
+    if may_alias:
+        ok1b = cross_obj is not None and auto is not None and cross_obj[0] == auto[0] and cross_obj[1] == Z
+        chk.check(ok1b, 'C13-R5', PS, 'get_raw_power', 'cross power with ONE array object passed for both fields == auto power', f'{len(may_alias)} call site(s) can pass the same object',
+                  f'a caller binds the second field to the first (line {may_alias[0].lineno}) and the estimator updates its first argument in place: with one object for both fields '
+                  f'every in-place step changes both operands, the result is {cross_obj[0] if cross_obj else None} instead of {auto[0] if auto else None} -- '
+                  'calc_power(pos, L, pos2=pos) no longer equals the auto power', node=may_alias[0])
     # common phase: a -> a e^{i t}, b -> b e^{i t} with c = cos t, s = sin t, s^2 = 1 - c^2
     c, s_ = Poly.sym('c'), Poly.sym('s')
     rot = lambda z: (z[0] * c - z[1] * s_, z[0] * s_ + z[1] * c)
